@@ -109,6 +109,8 @@ class BaseElementLocator
                        {
                            return address - diff;
                        });
+        // the slot after the last shifted element becomes the new end marker (see resize())
+        element_addresses_[element_addresses_.size() - (from - to)] = (last_element_ - memory_begin) - diff;
     }
 
     void make_room_for_last_element_at(std::size_t index, std::size_t size_of_element, std::byte* memory_begin) noexcept
